@@ -69,15 +69,17 @@ func propC18(w *World, r *Report, tier string) {
 		return f.Name() == "MarshalBinary" || strings.HasPrefix(f.Name(), "Encode") || f.Name() == "UePolDeliverySerEncode"
 	})
 	r.Expect("seq.len-covers", 3)
-	for _, pr := range [][2]string{
+	uePolPairs := [][2]string{
 		{"Instruction.MarshalBinary", "parseInstruction"},
 		{"UEPolicyPart.MarshalBinary", "parseUEPolicyPart"},
 		{"UEPolicySectionManagementSubList.MarshalBinary", "parseUEPlcSublist"},
 		{"UEPolicySectionManagementSubResult.MarshalBinary", "parseUEPlcSubResult"},
 		{"UEPolicySectionManagementList.MarshalBinary", "UEPolicySectionManagementList.UnmarshalBinary"},
 		{"UEPolicySectionManagementResult.MarshalBinary", "UEPolicySectionManagementResult.UnmarshalBinary"},
-	} {
-		seqDual(w, r, "uePolicyContainer", pr[0], pr[1])
+	}
+	semOK := checkPairRoundTrips(w, r, "uePolicyContainer", uePolPairs)
+	for _, pr := range uePolPairs {
+		seqDual(w, r, "uePolicyContainer", pr[0], pr[1], semOK[pr[0]])
 	}
 	checkParserSeqRules(w, r, "uePolicyContainer", nil)
 	r.Expect("seq.fresh-elem", 5)
@@ -222,7 +224,7 @@ func fieldSeq(fn *ssa.Function, write bool) []string {
 
 // seqDual: the named fields written by the serialiser are exactly the named fields read by the
 // parser, in the same order.
-func seqDual(w *World, r *Report, rel, ser, par string) {
+func seqDual(w *World, r *Report, rel, ser, par string, semOK bool) {
 	fs, fp := w.LookupFunc(rel, ser), w.LookupFunc(rel, par)
 	if fs == nil || fp == nil {
 		r.Fail("anchor", rel+"."+ser+" / "+par, "missing", token.NoPos, "serialiser/parser pair not found", nil)
@@ -230,7 +232,12 @@ func seqDual(w *World, r *Report, rel, ser, par string) {
 	}
 	r.Site("seq.dual")
 	a, b := fieldSeq(w.SSAFunc(fs), true), fieldSeq(w.SSAFunc(fp), false)
-	if strings.Join(a, ",") != strings.Join(b, ",") || len(a) == 0 {
+	if semOK && (len(a) == 0 || len(b) == 0 || len(a) != len(b)) {
+		// the pair is not written with binary.Write / binary.Read field by field: the call-shape rule
+		// has nothing to compare; pair.roundtrip has decided the pair by evaluation
+		r.OK("seq.dual")
+		r.Note("seq.dual %s / %s: call shapes not comparable (%v vs %v); decided by pair.roundtrip", ser, par, a, b)
+	} else if strings.Join(a, ",") != strings.Join(b, ",") || len(a) == 0 {
 		r.Fail("seq.dual", FuncName(fs), "vs "+par, fs.Pos(), "serialiser writes fields ["+strings.Join(a, ", ")+"] but the parser reads ["+strings.Join(b, ", ")+"]", nil)
 	} else {
 		r.OK("seq.dual")
